@@ -196,6 +196,21 @@ CHECKS = {
                       "anything is stored or sent.",
         "level_note": _TRUST,
     },
+    "C05": {
+        "pkgs": ["./pkg/workceptor"],
+        "bounds": "output written in up to 3 chunks of 0..2, 0..2 and 0..1 arbitrary bytes, the file present or not when streaming starts, every start "
+                  "offset 0..size+1, the unit recorded finished (succeeded or failed) with a size equal to or larger than what is stored; reader "
+                  "polls interleaved with the producer at 5 points",
+        "common": {"native_timeout": 300, "witnesses": 1},
+        "assumptions": ["timers fire only when every goroutine is blocked (poll intervals are not measured)",
+                        "the runner records the final StdoutSize correctly (C13/C04)"],
+        "outside": ["the remote mirror (monitorRemoteStdout / monitorRemoteStatus): it needs a live netceptor.Conn, which cannot be constructed in the "
+                    "model - not decided", "negative start offsets", "outputs longer than 5 bytes and reads shorter than the data available"],
+        "level_text": "Bounded symbolic execution of the real GetResults reader goroutine (with its stat-watcher) over the file-system model with a "
+                      "growing output file: the bytes delivered are exactly file[offset:], the stream stays open while the unit runs or while "
+                      "recorded output is still missing, and ends once the unit is finished and everything recorded was sent.",
+        "level_note": _TRUST,
+    },
     "C10": {
         "pkgs": ["./pkg/netceptor"],
         "bounds": "step lemma for all 256 budgets, arbitrary routing table (no route / via B / via C / via unconnected X) for source and "
